@@ -129,7 +129,19 @@ let burst (ks : int list) : int list =
   let after_wait = match outs with [W.RWait; W.RCount n] -> n2i n | _ -> -1 in
   [n2i nret; n2i nonce; n2i cnt; after_wait]
 
+(* F c14_wait_order: program Call(1) ; Wait ; Call(1) under the forced order of critical sections of the harness scenario
+   C14L: first Call and its worker up to the running function, Wait invoked, function ends, worker exits on the empty queue
+   (count 0), second Call (spawns a worker, which dequeues and starts the function). Result: count, whether the Wait-return
+   step is enabled in that state, number of running functions. *)
+let wait_order (args : int list) : int list =
+  let progs = progs_of_cfg (L.concat (L.mapi (fun i c -> if i = 0 then [c] else [-1; c]) args)) in
+  let pc t = W.PC (i2n t) and pw w = W.PW (i2n w) in
+  let sched = [pc 0; pw 0; pw 0; pc 1; pw 0; pw 0; pc 2; pw 1; pw 1] in
+  let s = W.run W.Faithful (W.init progs) sched in
+  [n2i s.W.count; (if W.enabled W.Faithful s (pc 1) then 1 else 0); n2i (W.countp W.running s.W.ws)]
+
 let init () =
   register "workers" (fun kind caseid rest -> WorkersC.handle kind caseid rest)
     (fun () -> WorkersC.summary (); Printf.printf "SUMMARY model=workers_search nodes=%d\n" !nodes);
-  register_fn "c14_burst" burst
+  register_fn "c14_burst" burst;
+  register_fn "c14_wait_order" wait_order
